@@ -189,7 +189,18 @@ class G:
             return g.expr() + "." + self.r.pick(["len()", "at(0)", "first", "map(x => x + 1)", "b.c(1).d(2)"])
         if r < 22:
             params = self.r.pick(["x", "(x)", "(x, y)", "(x, y: 1)", "(..args)", "((a, b))", "_"])
-            return params + g.sp(False) + "=>" + g.sp(False) + g.expr()
+            r2 = self.r.below(8)
+            if r2 < 4:
+                body = g.expr()
+            elif r2 < 5:
+                body = self.r.pick(["total", "acc", "it.x"]) + self.r.pick([" = ", " += ", " -= "]) + g.binary_chain()
+            elif r2 < 6:
+                body = "not " + g.binary_chain()
+            elif r2 < 7:
+                body = "return " + g.binary_chain()
+            else:
+                body = self.r.pick(["-", "+"]) + g.binary_chain()
+            return params + g.sp(False) + "=>" + g.sp(False) + body
         if r < 24:
             return "{" + g.sp(True, True) + g.statements() + g.sp(True, True) + "}"
         if r < 26:
@@ -201,6 +212,15 @@ class G:
         if r < 29:
             return "context " + g.expr()
         return "`raw`"
+
+    def binary_chain(self):
+        n = 2 + self.r.below(4)
+        ops = self.r.pick([["+", "-"], ["*", "/"], ["and", "or"], ["==", "<"], ["in"]])
+        parts = [self.r.pick(["alpha_alpha", "b", "f(x)", "1", "long_name_here", "x.y"]) for _ in range(n)]
+        out = parts[0]
+        for p in parts[1:]:
+            out += " " + self.r.pick(ops) + " " + p
+        return out
 
     def word_ascii(self):
         return self.r.pick(["a", "b", "key", "fill", "x-y"])
